@@ -143,7 +143,6 @@ func pdPool(thorough bool) []*pdSeg {
 		add(1, v)
 	}
 	add(2, "v1")
-	add(2, "v2")
 	return pool
 }
 
@@ -426,9 +425,8 @@ func pdFixedMenu(cfg *pdCfg) []pdQuery {
 // pdCrossMenu: the full cross product of the per-dimension menus (run once per distinct state).
 func pdCrossMenu(cfg *pdCfg) []pdQuery {
 	ids, types, groups, intfs, starts, ends := pdDims(cfg)
-	if !mc.Thorough() {
-		types, groups, intfs, starts, ends = types[:4], groups[:3], intfs[:4], starts[:3], ends[:2]
-	}
+	// 3 x 4 x 3 x 4 x 3 x 2 = 864 conjunctions; the remaining values of each dimension are covered by the fixed menu
+	types, groups, intfs, starts, ends = types[:4], groups[:3], intfs[:4], starts[:3], ends[:2]
 	var q []pdQuery
 	for _, a := range ids {
 		for _, b := range types {
@@ -679,41 +677,50 @@ func (h *pdHarness) replayInBubble(hist []pdEv) storeResult {
 }
 
 func c27PathDB(t *testing.T, r *mc.Run, phases *[]map[string]any) bool {
-	th := mc.Thorough()
-	cfg := &pdCfg{pool: pdPool(th)}
-	cfg.combos = []pdCombo{{name: "up", typ: seg.TypeUp, plain: true}, {name: "down+g7", typ: seg.TypeDown, groups: []uint64{7}}}
-	// clean-up instants: T0+1000 (v0 of the short-lived identities is expired), T0+4500 (everything but the
-	// newer versions of the long-lived P1), thorough: T0+9000 (everything)
-	cfg.nows = []time.Time{c27T0.Add(1000 * time.Second), c27T0.Add(4500 * time.Second)}
-	var p0, p1 string
-	for _, s := range cfg.pool {
-		if s.id == 0 {
-			p0 = s.idHex
-		}
-		if s.id == 1 {
-			p1 = s.idHex
-		}
-	}
-	cfg.partials = []string{p0, p1[:6]}
-	if th {
-		cfg.combos = append(cfg.combos, pdCombo{name: "core+g7g8", typ: seg.TypeCore, groups: []uint64{7, 8}})
-		cfg.nows = append(cfg.nows, c27T0.Add(9000*time.Second))
-	}
-	h := &pdHarness{cfg: cfg, r: r}
-	h.fixed, h.cross = pdFixedMenu(cfg), pdCrossMenu(cfg)
-	r.Extra["pathdb_pool"] = func() (n []string) {
+	mk := func(th bool) *pdHarness {
+		cfg := &pdCfg{pool: pdPool(th)}
+		cfg.combos = []pdCombo{{name: "up", typ: seg.TypeUp, plain: true}, {name: "down+g7", typ: seg.TypeDown, groups: []uint64{7}}}
+		// clean-up instants: T0+1000 (v0 of the short-lived identities is expired), T0+4500 (everything but the
+		// newer versions of the long-lived P1), thorough: T0+9000 (everything)
+		cfg.nows = []time.Time{c27T0.Add(1000 * time.Second), c27T0.Add(4500 * time.Second)}
+		var p0, p1 string
 		for _, s := range cfg.pool {
+			if s.id == 0 {
+				p0 = s.idHex
+			}
+			if s.id == 1 {
+				p1 = s.idHex
+			}
+		}
+		cfg.partials = []string{p0, p1[:6]}
+		if th {
+			cfg.combos = append(cfg.combos, pdCombo{name: "core+g7g8", typ: seg.TypeCore, groups: []uint64{7, 8}})
+			cfg.nows = append(cfg.nows, c27T0.Add(9000*time.Second))
+		}
+		h := &pdHarness{cfg: cfg, r: r}
+		h.fixed, h.cross = pdFixedMenu(cfg), pdCrossMenu(cfg)
+		return h
+	}
+	small := mk(false)
+	big := small
+	if mc.Thorough() {
+		big = mk(true)
+	}
+	r.Extra["pathdb_pool"] = func() (n []string) {
+		for _, s := range big.cfg.pool {
 			n = append(n, fmt.Sprintf("%s id=%s ver=T0+%d info=T0+%d expiry=T0+%d", s.name, s.idHex[:8],
 				int(s.lastSign.Sub(c27T0).Seconds()), int(s.info.Sub(c27T0).Seconds()), int(s.expiry.Sub(c27T0).Seconds())))
 		}
 		return
 	}()
-	r.Extra["pathdb_queries_per_replay"] = len(h.fixed)
-	r.Extra["pathdb_queries_per_new_state"] = len(h.fixed) + len(h.cross)
-	replay := func(hist []pdEv) storeResult { return h.replay(t, hist) }
-	ok := runStorePhase(r, storePhase[pdEv]{"pathdb-merge-checked", cfg.menu(), mc.Pick(3, 4), true, replay}, phases)
+	r.Extra["pathdb_queries_per_replay"] = len(big.fixed)
+	r.Extra["pathdb_queries_per_new_state"] = len(big.fixed) + len(big.cross)
+	// merge-checked phase: small pool (quick: depth 3, thorough: depth 4); then the tier's pool until no new state appears
+	ok := runStorePhase(r, storePhase[pdEv]{"pathdb-merge-checked", small.cfg.menu(), mc.Pick(3, 4), true,
+		func(hist []pdEv) storeResult { return small.replay(t, hist) }}, phases)
 	if ok {
-		ok = runStorePhase(r, storePhase[pdEv]{"pathdb-to-fixpoint", cfg.menu(), mc.Pick(12, 16), false, replay}, phases)
+		ok = runStorePhase(r, storePhase[pdEv]{"pathdb-to-fixpoint", big.cfg.menu(), mc.Pick(12, 20), false,
+			func(hist []pdEv) storeResult { return big.replay(t, hist) }}, phases)
 	}
 	return ok
 }
